@@ -21,6 +21,11 @@ var trUnits = []*trUnit{
 	}},
 	{pkg: "lib/common/compare", mod: "Compare", funcs: []string{"Time", "Decimal"}},
 	{pkg: "lib/model/commodity", mod: "Commodity", funcs: []string{"Commodity.Name", "Compare"}},
+	{pkg: "lib/model/account", mod: "Account", funcs: []string{
+		"Account.Segments", "Account.Name", "Account.Type", "Account.IsAL", "Account.IsIE", "Account.Level", "Compare",
+	}},
+	{pkg: "lib/model/posting", mod: "Posting", funcs: []string{"Builder.Build", "Builders.Build", "Compare"}},
+	{pkg: "lib/model/transaction", mod: "Transaction", funcs: []string{"Compare", "Builder.Build"}},
 	{pkg: "lib/model/price", mod: "Price", funcs: []string{
 		"Multiply", "newNormalizedPrices", "Prices.addPrice", "Prices.Insert", "NormalizedPrices.Price", "NormalizedPrices.Valuate",
 	}},
